@@ -1,10 +1,13 @@
 /-
   Props.C26 — durable queue: in order, at least once, across crashes.
-  (work in progress: witness of the format-level failure; the refinement and
-  crash theorems follow)
+
+  Model: Influx.Model.DurableQueue (byte-level segment files, open/repair,
+  append, advance, scanner, multi-segment queue, torn writes).
+  Statement checker: Influx.Spec.C26.holdsOn.
 -/
 import Influx.Model.DurableQueueStep
 import Influx.Spec.C26
+import Influx.Lemmas.DurableQueueCrash
 
 namespace Influx.Props.C26
 open Influx.DQ Influx.Spec.C26
@@ -16,10 +19,37 @@ def f10 : List Op :=
   [.openQ 100000 1024, .append [1,2,3,4,5,6,7,8],
    .crashAppend [11,12,13,14,15,16,17,18,19,20,21,22,23,24,25,26] 8, .cur]
 
+/-- The full statement (every history, every cut) is FALSE of the code: witness F10. -/
 theorem C26_full_fails : ¬ (∀ ops : List Op, holdsOn (trace init ops) = true) := by
   intro h
   have := h f10
   revert this
   decide
+
+/-- **Crash inside an append, every cut** (segment level, unbounded): if the torn
+    file does not end in 8 bytes that pass for a head position
+    (`TornObs.footerLike`, the F10 condition), `newSegment` recovers a well-formed
+    segment holding exactly the old records (head unchanged, or reset to the start
+    = replay) or the old records plus the new one. -/
+theorem C26_torn_append (mx : Nat) {s s' : Seg} {done rest : List Bytes} (h : SegWF s done rest)
+    (b : Bytes) (happ : s.append b = .ok s') (hsmall : s.size + b.length + 8 < 2^63) (k : Nat)
+    (hnf : (tornObs s.file s'.file (tornWrite s.file s'.file k)).footerLike = false) :
+    ∃ t, newSeg verifyAll mx (tornWrite s.file s'.file k) = some t ∧ Recovered t done rest [b] :=
+  torn_append_recovers mx h b happ hsmall k hnf
+
+/-- **Crash inside an advance (footer rewrite), every cut** (segment level). -/
+theorem C26_torn_advance (mx : Nat) {s : Seg} {done : List Bytes} {r : Bytes} {rs : List Bytes}
+    (h : SegWF s done (r :: rs)) (k : Nat)
+    (hnf : (tornObs s.file s.advance.1.file (tornWrite s.file s.advance.1.file k)).footerLike = false) :
+    ∃ t, newSeg verifyAll mx (tornWrite s.file s.advance.1.file k) = some t ∧ RecoveredAdv t done r rs :=
+  torn_advance_recovers mx h k hnf
+
+/-- No-crash segment FIFO: `current` returns the first unconsumed record, `advance`
+    moves past exactly it, `append` adds at the end, a clean reopen changes nothing. -/
+theorem C26_segment_fifo {s : Seg} {done : List Bytes} {r : Bytes} {rs : List Bytes}
+    (h : SegWF s done (r :: rs)) :
+    s.current = .ok r ∧ SegWF s.advance.1 (done ++ [r]) rs ∧
+    (∀ mx, newSeg verifyAll mx s.file = some ⟨s.file, s.pos, max mx s.file.length⟩) :=
+  ⟨current_wf_cons h, (advance_wf_cons h).1, fun mx => newSeg_wf mx h⟩
 
 end Influx.Props.C26
